@@ -23,6 +23,17 @@ def fr(x):
     return x if isinstance(x, Fraction) else Fraction(x)
 
 
+def viol(ctx, key, what, replay=None, nofail=False, per_key=2):
+    """ctx.violation, but at most `per_key` records per classifier key: vf.Ctx keeps 50 violations in all, and one
+    defect that fails hundreds of generated cases must not push the other keys out of the report.  All occurrences
+    are counted in coverage.violations_by_key."""
+    d = ctx.cov.setdefault('violations_by_key', {})
+    d[key] = d.get(key, 0) + 1
+    if d[key] <= per_key:
+        return ctx.violation(key, what, replay=replay, nofail=nofail)
+    return False
+
+
 # ----------------------------------------------------------------------------- tools
 class Tools:
     def __init__(self, ctx, variants=('plain',)):
@@ -104,6 +115,8 @@ def parse_exe(out):
     r['obs'] = obs
     assert t[pos] == 'F'
     r['final'] = t[pos + 1:pos + 7]
+    assert t[pos + 7] == 'C'
+    r['paths_reversed'] = int(t[pos + 8])
     return r
 
 
@@ -669,14 +682,14 @@ def region_eval(ctx, T, rng, cases, prepare, sign_of, key_of, label, pid_kind):
         r = parse_exe(o)
         res.append(r)
         if not r['ok']:
-            ctx.violation('offset.crash-or-exception', '%s: harness answered %s' % (label, o[:300]),
+            viol(ctx, 'offset.crash-or-exception', '%s: harness answered %s' % (label, o[:300]),
                           replay=dict(kind=pid_kind, case=c))
             continue
         if r['err'] != 0:
-            ctx.violation('offset.error-code', '%s: ErrorCode %d on valid input' % (label, r['err']), replay=dict(kind=pid_kind, case=c))
+            viol(ctx, 'offset.error-code', '%s: ErrorCode %d on valid input' % (label, r['err']), replay=dict(kind=pid_kind, case=c))
             continue
         if not r['same']:
-            ctx.violation('tie-break:offset-observer-intrusive',
+            viol(ctx, 'tie-break:offset-observer-intrusive',
                           '%s: result with the observing delta callback differs from the plain run' % label,
                           replay=dict(kind=pid_kind, case=c), nofail=True)
         pts, spec, wn = prepare(rng, c, r['sol'])
@@ -707,7 +720,7 @@ def region_eval(ctx, T, rng, cases, prepare, sign_of, key_of, label, pid_kind):
         if bad:
             nviol += 1
             mode, q, v, w = bad
-            ctx.violation(key_of(c, mode),
+            viol(ctx, key_of(c, mode),
                           '%s: point (%s, %s) must be %s by the result but its winding number there is %d (expected %d); '
                           'delta=%s join=%s %s' % (label, q[0] / 2, q[1] / 2, 'covered' if v == 1 else 'uncovered', w, sg if v == 1 else 0,
                                                     c['delta'], JT[c['groups'][0]['jt']], ET[c['groups'][0]['et']]),
@@ -808,7 +821,7 @@ def locality_eval(ctx, T, cases, label, pid_kind, key_of=None):
     for (ci, u), o in zip(owner, outs):
         r = parse_exe(o)
         if not r['ok']:
-            ctx.violation('offset.crash-or-exception', '%s: harness answered %s' % (label, o[:300]), replay=dict(kind=pid_kind, case=cases[ci]))
+            viol(ctx, 'offset.crash-or-exception', '%s: harness answered %s' % (label, o[:300]), replay=dict(kind=pid_kind, case=cases[ci]))
             r = dict(ok=False, sol=[])
         if u is None:
             tog[ci] = r
@@ -849,7 +862,7 @@ def locality_eval(ctx, T, cases, label, pid_kind, key_of=None):
             missing = [list(p) for p in exp if p not in got][:3]
             extra = [list(p) for p in got if p not in exp][:3]
             key = key_of(c) if key_of else locality_key(c, None)
-            ctx.violation(key, '%s: offsetting the paths together differs from offsetting each alone although they are far apart '
+            viol(ctx, key, '%s: offsetting the paths together differs from offsetting each alone although they are far apart '
                           '(delta=%s); paths only in alone-results: %s; only in the joint result: %s'
                           % (label, c['delta'], missing, extra),
                           replay=dict(kind=pid_kind, case=c, expected=[list(map(list, p)) for p in exp], actual=[list(map(list, p)) for p in got]))
@@ -865,7 +878,7 @@ def plan_tie(ctx, T, cases, label, pid_kind):
     plines, glines, gidx = [], [], []
     for ci, (c, r) in enumerate(zip(cases, parsed)):
         if not r['ok']:
-            ctx.violation('offset.crash-or-exception', '%s: harness answered %s' % (label, outs[ci][:300]), replay=dict(kind=pid_kind, case=c))
+            viol(ctx, 'offset.crash-or-exception', '%s: harness answered %s' % (label, outs[ci][:300]), replay=dict(kind=pid_kind, case=c))
             continue
         plines.append((ci, plan_line(c, r['groups'])))
         for gi, g in enumerate(c['groups']):
@@ -885,7 +898,7 @@ def plan_tie(ctx, T, cases, label, pid_kind):
         ctx.count('group_ctor_compared', 1)
         if [len(p) for p in ps] != hg['lens'] or low != hg['low'] or isrev != hg['isrev']:
             nbreak += 1
-            ctx.violation('tie-break:OffsetPlan.mk_group', '%s: Group constructor differs from the model: library lens=%s low=%s rev=%s, model lens=%s low=%s rev=%s'
+            viol(ctx, 'tie-break:OffsetPlan.mk_group', '%s: Group constructor differs from the model: library lens=%s low=%s rev=%s, model lens=%s low=%s rev=%s'
                           % (label, hg['lens'], hg['low'], hg['isrev'], [len(p) for p in ps], low, isrev),
                           replay=dict(kind=pid_kind, case=cases[ci], group=gi), nofail=True)
     steps_req = {}
@@ -897,6 +910,12 @@ def plan_tie(ctx, T, cases, label, pid_kind):
         first = {}
         for o in r['obs']:
             first.setdefault((o['gi'], o['pi'], o['kind']), []).append(o)
+        ctx.count('check_reverse_compared', 1)
+        if pl['mode'] != 'nothing' and pl['fillneg'] != r['paths_reversed']:
+            nbreak += 1
+            viol(ctx, 'tie-break:OffsetPlan.check_reverse', '%s: CheckReverseOrientation returns %d, the model %d (groups: %s)'
+                          % (label, r['paths_reversed'], pl['fillneg'], [(ET[g['et']], g['lens'], g['low'], g['isrev']) for g in r['groups']]),
+                          replay=dict(kind=pid_kind, case=c), nofail=True)
         if pl['mode'] != 'offset':
             if r['obs']:
                 msgs.append('model says %s but the library offset %d paths' % (pl['mode'], len(r['obs'])))
@@ -930,7 +949,7 @@ def plan_tie(ctx, T, cases, label, pid_kind):
                     msgs.append('observation for unknown path %s' % (k,))
         if msgs:
             nbreak += 1
-            ctx.violation('tie-break:OffsetPlan.plan', '%s: plan model and library disagree: %s' % (label, '; '.join(msgs[:3])),
+            viol(ctx, 'tie-break:OffsetPlan.plan', '%s: plan model and library disagree: %s' % (label, '; '.join(msgs[:3])),
                           replay=dict(kind=pid_kind, case=c), nofail=True)
     # steps_per_rad_ for the abs_delta the model says it was computed for
     if steps_req:
@@ -942,7 +961,7 @@ def plan_tie(ctx, T, cases, label, pid_kind):
                 ctx.count('steps_compared', 1)
                 if t[0] != 'OK' or not hexeq(t[1], spr):
                     nbreak += 1
-                    ctx.violation('tie-break:OffsetGeom.step_consts', '%s: steps_per_rad_ %s differs from the model %s (arc tolerance %s, |delta| %s)'
+                    viol(ctx, 'tie-break:OffsetGeom.step_consts', '%s: steps_per_rad_ %s differs from the model %s (arc tolerance %s, |delta| %s)'
                                   % (label, spr, o, k[0], k[1]), replay=dict(kind=pid_kind, case=cases[ci]), nofail=True)
     return nbreak, parsed
 
@@ -980,7 +999,7 @@ def raw_tie(ctx, T, cases, label, pid_kind):
                     what = 'number of raw curves differs: library %d, model %d' % (len(hp), len(op))
             except Exception:
                 pass
-            ctx.violation('tie-break:OffsetGeom.raw-curve', '%s: raw offset curve of the library differs from the binary64 model: %s '
+            viol(ctx, 'tie-break:OffsetGeom.raw-curve', '%s: raw offset curve of the library differs from the binary64 model: %s '
                           '(join %s end %s delta %s)' % (label, what, JT[c['jt']], ET[c['et']], c['delta']),
                           replay=dict(kind=pid_kind, case=c), nofail=True)
     return nbreak
@@ -1015,7 +1034,7 @@ def float_selftest(ctx, T, n=4000):
             if not same:
                 bad += 1
                 if bad <= 3:
-                    ctx.violation('tie-break:FloatModel.ieee-op', 'IEEE operation differs between the C++ build and Coq primitive floats: %s -> %s vs %s' % (it, x, y),
+                    viol(ctx, 'tie-break:FloatModel.ieee-op', 'IEEE operation differs between the C++ build and Coq primitive floats: %s -> %s vs %s' % (it, x, y),
                                   replay=dict(kind='fop', item=it), nofail=True)
     ctx.count('ieee_ops_compared', len(items))
     return bad
